@@ -187,6 +187,7 @@ func C11(c *Ctx) {
 	r.Rule("R11.3", "start-up reconciliation: ledger.New returns a ledger only across the success edge of Rollback(chain meta height); NewChainLedgerImpl compares the blockfile size with the chain meta and truncates the surplus before returning; NewSimpleLedger refuses to open when the journal of its recorded height is missing.")
 	r.Rule("R11.4", "no dropped persistence error: the error results of StateLedger.Commit, PersistExecutionResult, AppendBlock, TruncateBlocks, persistChainMeta, removeJournalsBeforeBlock, RollbackState and RollbackBlockChain are tested at every call site of the ledger / executor / genesis packages, and the failure edge ends in a panic or an error return.")
 	r.Rule("R11.5", "markers mirror fields: wherever a function of the state ledger persists a journal window marker (minHeight / maxHeight, outside a loop) and assigns the corresponding in-memory field (minJnlHeight / maxJnlHeight), both receive the same height; the reopened ledger derives its rollback window from the markers.")
+	r.Rule("R11.6", "the start-up rollback undoes whole journal entries (shared with C12 R12.6): every path through revertJournal reaches the loop over PrevStates and the test of CodeChanged; otherwise the state store reconciled after a crash keeps storage or code of the block that was rolled back.")
 	r.NotDecided = append(r.NotDecided, "the set of on-disk states after a crash (leveldb batch atomicity and blockfile repair() are trusted); crash during a rollback (RollbackBlockChain truncates the blockfile before it commits the index batch: reported as information); re-execution equivalence after recovery; the ethdb-backed (complex) state ledger's own commit protocol")
 
 	isStateCommit := func(in ssa.Instruction) bool {
@@ -411,19 +412,22 @@ func C11(c *Ctx) {
 		}
 	}
 	if ns := c.fn("R11.3", "internal/ledger.NewSimpleLedger"); ns != nil {
-		missing := condEdges(ns, func(f core.Fact, ifi *ssa.If) (bool, int) {
-			if f.Kind != core.FNil {
-				return false, 0
+		key := "NewSimpleLedger: refuses a height without journal"
+		// refused(fn, errIdx): fn tests getBlockJournal(..) == nil and no success return is reachable from the nil edge
+		refused := func(fn *ssa.Function, errIdx int) (found, ok bool) {
+			missing := condEdges(fn, func(f core.Fact, ifi *ssa.If) (bool, int) {
+				if f.Kind != core.FNil {
+					return false, 0
+				}
+				cc, isCall := core.Strip(f.Subject).(*ssa.Call)
+				if !isCall || !strings.HasSuffix(core.CalleeName(cc), "ledger.getBlockJournal") {
+					return false, 0
+				}
+				return true, holdsEdge(f)
+			})
+			if missing.Len() == 0 {
+				return false, false
 			}
-			cc, ok := core.Strip(f.Subject).(*ssa.Call)
-			if !ok || !strings.HasSuffix(core.CalleeName(cc), "ledger.getBlockJournal") {
-				return false, 0
-			}
-			return true, holdsEdge(f)
-		})
-		if missing.Len() == 0 {
-			r.Bad("R11.3", "NewSimpleLedger: refuses a height without journal", c.P.Pos(ns.Pos()), "the journal of the recorded height is not checked when the state ledger is opened")
-		} else {
 			var starts []core.Point
 			for b, m := range missing {
 				for i := range m {
@@ -431,13 +435,60 @@ func C11(c *Ctx) {
 				}
 			}
 			rs := core.Reach(starts, nil, nil)
-			ok := true
-			for _, ret := range core.Returns(ns) {
-				if rs.Has(ret) && core.MayBeSuccess(ns, ret, 1, core.ConvErrNil) {
+			ok = true
+			for _, ret := range core.Returns(fn) {
+				if rs.Has(ret) && core.MayBeSuccess(fn, ret, errIdx, core.ConvErrNil) {
 					ok = false
 				}
 			}
-			r.Check(ok, "R11.3", "NewSimpleLedger: refuses a height without journal", c.P.Pos(ns.Pos()), "nil journal -> error return", "the state ledger opens although the journal of its recorded height is missing")
+			return true, ok
+		}
+		errIdxOf := func(fn *ssa.Function) int {
+			res := fn.Signature.Results()
+			for i := res.Len() - 1; i >= 0; i-- {
+				if res.At(i).Type().String() == "error" {
+					return i
+				}
+			}
+			return -1
+		}
+		found, ok := refused(ns, errIdxOf(ns))
+		if !found {
+			// in a helper of the ledger whose error the constructor hands on
+			for _, call := range core.Calls(ns) {
+				cl, isCall := call.(*ssa.Call)
+				g := core.StaticCallee(call)
+				if !isCall || g == nil || len(g.Blocks) == 0 || core.PkgOf(g) != ledgerPkg || errIdxOf(g) < 0 {
+					continue
+				}
+				gf, gok := refused(g, errIdxOf(g))
+				if !gf {
+					continue
+				}
+				found = true
+				es := core.EdgeSet{}
+				idx := errIdxOf(g)
+				if g.Signature.Results().Len() == 1 {
+					idx = -1
+				}
+				for bb, m := range core.SuccessEdges(ns, []core.GuardSite{{Call: cl, Conv: core.ConvErrNil, Idx: idx}}) {
+					for i := range m {
+						es.Add(bb, i)
+					}
+				}
+				rs := core.Reach([]core.Point{core.EntryOf(ns)}, nil, core.CutOf(es))
+				ok = gok && es.Len() > 0
+				for _, ret := range core.Returns(ns) {
+					if rs.Has(ret) && core.MayBeSuccess(ns, ret, errIdxOf(ns), core.ConvErrNil) {
+						ok = false
+					}
+				}
+			}
+		}
+		if !found {
+			r.Bad("R11.3", key, c.P.Pos(ns.Pos()), "the journal of the recorded height is not checked when the state ledger is opened")
+		} else {
+			r.Check(ok, "R11.3", key, c.P.Pos(ns.Pos()), "nil journal -> error return", "the state ledger opens although the journal of its recorded height is missing")
 		}
 	}
 
@@ -492,6 +543,7 @@ func C11(c *Ctx) {
 		r.Note("R11.1", "RollbackBlockChain: blockfile truncated before the index batch commits", c.P.Pos(rbk.Pos()), "a crash during a rollback can leave the chain meta above the blockfile; not part of a block commit, see DESIGN.md")
 	}
 	c.markerFieldAgreement()
+	c.revertJournalWhole("R11.6")
 }
 
 // chainBatchDiscipline: nothing on the chain-store persist / rollback path writes around the block's batch.
@@ -537,7 +589,6 @@ func (c *Ctx) chainBatchDiscipline(rule string) {
 	}
 	r.Floor(rule, "chain-ledger functions on the batch path", nBatchFns, 4)
 }
-
 
 // blockfileReconciled: fn compares bf.Blocks() with the chain meta height (isH recognises it) and, on the
 // surplus edge, passes TruncateBlocks(height) before every success return; no success return avoids the
